@@ -3,7 +3,8 @@
    coq/Valid/ValidRules.v + ValidOverlap.v (26 rule visitors of
    py_gql/validation over the TypeInfoVisitor context). *)
 From PyGql Require Import Valid.ValidOverlap Spec.ValidSpec
-     Proofs.ValidCloseProofs Proofs.ValidMergeProofs Proofs.ValidStaticProofs Proofs.ValidFuelProofs.
+     Proofs.ValidCloseProofs Proofs.ValidMergeProofs Proofs.ValidStaticProofs Proofs.ValidFuelProofs
+     Spec.ValidLocalSpec Spec.ValidRuntimeSpec Proofs.ValidRuntimeProofs Proofs.ValidMemoProofs Proofs.ValidLocsProofs.
 
 (* For every schema and every executable document -- valid or not, also with
    cyclic fragment spreads -- the model of validate_ast returns its list of
@@ -60,6 +61,97 @@ Theorem C05_merge_unambiguous_within : forall fuel s frs parent l sels st st',
 Proof. exact within_silent. Qed.
 Print Assumptions C05_merge_unambiguous_within.
 
+(* Through NAMED fragments. The search compares a field map with a fragment,
+   and two fragments, at most once (two memo sets; a field map is identified by
+   the location of its selection set, in Python by the identity of the cached
+   dict). The memo sets never drop an obligation: when the rule is silent, for
+   every selection set it visits
+   - every field of the set is pairwise mergeable with every same-key field of
+     every fragment spread in the set directly or transitively ([sreach]), and
+   - for two spreads a, b of the set, the fields of the fragments the comparison
+     of a and b unfolds to ([preach]: one side at a time is replaced by a
+     fragment it spreads; an identical pair is left to that fragment's own
+     selection set) are pairwise mergeable.
+   Cyclic spreads included; no fuel hypothesis (C05_validate_total gives the
+   fuel). Hypothesis [faithful_locations]: distinct selection sets have distinct
+   locations, and the parent type under which the rule visits a selection set
+   is the one the pairwise descent computes for it (a map M from locations to
+   field maps that all calls agree with) -- the assumption under which keying
+   the memo by location models keying it by dict identity. *)
+Theorem C05_merge_unambiguous_named : forall fuel s d,
+  faithful_locations s d ->
+  r25_overlapping_fields fuel s d = Ok [] ->
+  forall parent l sels, In (ESelSet parent l sels) (doc_events s d) ->
+    let frs := frag_table (doc_defs d) in
+    let ff := fields_and_fragments s parent sels in
+    (forall g0 g fm fns, In g0 (snd ff) -> sreach s frs g0 g -> frag_ff s frs g = Some (fm, fns) ->
+                         maps_mergeable s (fst ff) fm)
+    /\ (forall a b x y fm1 fns1 fm2 fns2, In (a, b) (perms (snd ff)) -> preach s frs a b x y -> x <> y ->
+          frag_ff s frs x = Some (fm1, fns1) -> frag_ff s frs y = Some (fm2, fns2) ->
+          maps_mergeable s fm1 fm2 \/ maps_mergeable s fm2 fm1).
+Proof. exact merge_named. Qed.
+Print Assumptions C05_merge_unambiguous_named.
+
+(* [faithful_locations] holds when the selection sets have pairwise distinct
+   locations (parser output), FragmentsOnCompositeTypes is silent, and the
+   parent type the traversal gives the sub-selection of a field is the one the
+   pairwise descent computes from the field's definition ([lookups_agree]) ... *)
+Theorem C05_faithful_locations : forall s d,
+  NoDup (selset_locs (doc_events s d)) ->
+  spec_fragments_on_composite s d ->
+  lookups_agree s d ->
+  faithful_locations s d.
+Proof. exact faithful_from_agreement. Qed.
+Print Assumptions C05_faithful_locations.
+
+(* ... which is the case when no field with a sub-selection is an introspection
+   meta field and the type of such a field, when the parent defines it, is
+   composite (ScalarLeafs). *)
+Theorem C05_lookups_agree : forall s d,
+  (forall q a n args dirs l0 sub l, reaches s d (Some q) (SField a n args dirs (Some l0) sub l) ->
+     meta_name (n_val n) = false /\
+     forall fd, get_field_def s q (n_val n) = Some fd -> is_composite s (unwrap (sf_type fd)) = true) ->
+  lookups_agree s d.
+Proof. exact lookups_agree_plain. Qed.
+Print Assumptions C05_lookups_agree.
+
+(* The two together: the guarantee through named fragments from rule verdicts
+   and distinct locations only. *)
+Theorem C05_merge_unambiguous_named_valid : forall fuel s d,
+  NoDup (selset_locs (doc_events s d)) ->
+  r06_fragments_on_composite s d = [] ->
+  lookups_agree s d ->
+  r25_overlapping_fields fuel s d = Ok [] ->
+  forall parent l sels, In (ESelSet parent l sels) (doc_events s d) ->
+    let frs := frag_table (doc_defs d) in
+    let ff := fields_and_fragments s parent sels in
+    (forall g0 g fm fns, In g0 (snd ff) -> sreach s frs g0 g -> frag_ff s frs g = Some (fm, fns) ->
+                         maps_mergeable s (fst ff) fm)
+    /\ (forall a b x y fm1 fns1 fm2 fns2, In (a, b) (perms (snd ff)) -> preach s frs a b x y -> x <> y ->
+          frag_ff s frs x = Some (fm1, fns1) -> frag_ff s frs y = Some (fm2, fns2) ->
+          maps_mergeable s fm1 fm2 \/ maps_mergeable s fm2 fm1).
+Proof. exact merge_named_plain. Qed.
+Print Assumptions C05_merge_unambiguous_named_valid.
+
+(* The invariant behind it, at every depth: a silent rule leaves a memo state
+   [stf] relative to which every call made for a visited selection set is
+   satisfied ([sat]: the pairwise conditions of FieldsInSetCanMerge with the
+   exclusivity flag, recursively through the sub-selections of the compared
+   fields, and "compared" for a memo key) and every memo key taken is covered
+   ([newcov]: the comparison the key stands for is satisfied and the keys of
+   the fragments nested in it are taken): no comparison is skipped because of
+   the memo without having been made. *)
+Theorem C05_merge_memo_sound : forall fuel s d M,
+  NoDup (selset_locs (doc_events s d)) ->
+  events_ok s M (doc_events s d) ->
+  (forall g fm fns, frag_ff s (frag_table (doc_defs d)) g = Some (fm, fns) -> mok s M fm) ->
+  r25_overlapping_fields fuel s d = Ok [] ->
+  exists stf, newcov s (frag_table (doc_defs d)) M (initial_state s d) stf /\
+    forall parent l sels, In (ESelSet parent l sels) (doc_events s d) ->
+      forall c, In c (selset_calls s parent l sels) -> sat s stf c.
+Proof. exact memo_sound. Qed.
+Print Assumptions C05_merge_memo_sound.
+
 (* A document on which FieldsOnCorrectType and KnownFragmentNames are silent
    cannot reach, by static descent from any definition, a field that its parent
    type does not define or a spread of a fragment that is not defined. *)
@@ -77,6 +169,49 @@ Theorem C05_shape_static : forall s d,
 Proof. exact shape_static. Qed.
 Print Assumptions C05_shape_static.
 
+(* ---- the runtime half: the executor evaluates a selection against the
+   RUNTIME object type ([rreach]: fields are looked up on the object, the type a
+   field's value may have is any object of the type the OBJECT declares for it,
+   fragments are entered when their type condition applies to the object).
+   Hypothesis [implements_ok]: the interface-implementation invariant of a
+   valid schema (an object that can stand for p defines p's fields with a
+   covariant type of the same kind). ---- *)
+
+(* Every selection met at runtime under object type o is met by static descent
+   under a static parent p that o can stand for. *)
+Theorem C05_runtime_reach_static : forall s d,
+  implements_ok s -> spec_fields_on_correct_type s d ->
+  forall o z, rreach s d o z -> exists p, runtime_of s p o /\ reaches s d (Some p) z.
+Proof. exact runtime_reach_static. Qed.
+Print Assumptions C05_runtime_reach_static.
+
+(* FieldsOnCorrectType and KnownFragmentNames silent: the executor never meets
+   a field its runtime object type does not define, nor an undefined fragment. *)
+Theorem C05_progress_runtime : forall s d,
+  implements_ok s ->
+  r09_fields_on_correct_type s d = [] -> r11_known_fragment_names s d = [] ->
+  ~ runtime_stuck s d.
+Proof. exact progress_runtime. Qed.
+Print Assumptions C05_progress_runtime.
+
+(* ... and with ScalarLeafs silent, sub-selections are exactly on the fields
+   whose type on the runtime object is composite. *)
+Theorem C05_shape_runtime : forall s d,
+  implements_ok s ->
+  r09_fields_on_correct_type s d = [] -> r08_scalar_leafs s d = [] ->
+  ~ runtime_misshaped s d.
+Proof. exact shape_runtime. Qed.
+Print Assumptions C05_shape_runtime.
+
+(* [implements_ok] is implied by a check that can be evaluated on the schema:
+   for every abstract type p, every object o among its possible types and
+   every field p defines (meta fields included), o defines the field with a
+   type whose runtime objects are runtime objects of p's type, of the same
+   kind. *)
+Theorem C05_implements_ok_decidable : forall s, implements_okb s = true -> implements_ok s.
+Proof. exact implements_okb_sound. Qed.
+Print Assumptions C05_implements_ok_decidable.
+
 (* non-vacuity *)
 Local Open Scope string_scope.
 Example C05_example :
@@ -89,4 +224,53 @@ Example C05_example :
                     [SField None (nm "b") [] [] None [] None; SSpread (nm "F") [] None] None] None in
   validate_model (overlap_fuel s good) s good = Ok [] /\
   validate_model (overlap_fuel s bad) s bad = Ok [(9%N, None); (11%N, None)].
+Proof. vm_compute. split; reflexivity. Qed.
+
+(* named fragments: the same response key selected directly and through the
+   nested fragment B, with the same field (silent) and with another field
+   (reported); distinct selection-set locations *)
+Example C05_example_named :
+  let nm x := Name (str_of_string x) None in
+  let s := Schema [(str_of_string "Q", TObject [] [SField_ (str_of_string "a") [] (RNamed (str_of_string "Int"));
+                                                   SField_ (str_of_string "b") [] (RNamed (str_of_string "Int"))]);
+                   (str_of_string "Int", TScalar SkInt)]
+                  (Some (str_of_string "Q")) None None [] in
+  let tq := TNamed (nm "Q") None in
+  let fld al n := SField al (nm n) [] [] None [] None in
+  let fr n k sels := DFragment (nm n) [] tq [] (Some (k, k)) sels None in
+  let op sels := DOperation OpQuery None [] [] (Some (0, 0)) sels None in
+  let good := Doc [op [fld (Some (nm "x")) "a"; SSpread (nm "A") [] None];
+                   fr "A" 1 [SSpread (nm "B") [] None]; fr "B" 2 [fld (Some (nm "x")) "a"]] None in
+  let bad := Doc [op [fld (Some (nm "x")) "a"; SSpread (nm "A") [] None];
+                  fr "A" 1 [SSpread (nm "B") [] None]; fr "B" 2 [fld (Some (nm "x")) "b"]] None in
+  NoDup (selset_locs (doc_events s good)) /\ r06_fragments_on_composite s good = [] /\
+  r25_overlapping_fields (overlap_fuel s good) s good = Ok [] /\
+  NoDup (selset_locs (doc_events s bad)) /\
+  r25_overlapping_fields (overlap_fuel s bad) s bad = Ok [(25%N, None)].
+Proof.
+  vm_compute. repeat split; try reflexivity;
+    repeat (constructor; [simpl; intuition discriminate|]); constructor.
+Qed.
+
+
+(* runtime half, non-vacuity: a schema with an interface and a union whose
+   members implement it covariantly passes the check; one whose object lacks
+   the interface's field does not *)
+Example C05_example_runtime :
+  let S_ x := str_of_string x in
+  let s := Schema [(S_ "Q", TObject [] [SField_ (S_ "n") [] (RNamed (S_ "Node")); SField_ (S_ "u") [] (RNamed (S_ "U"))]);
+                   (S_ "Node", TInterface [SField_ (S_ "id") [] (RNamed (S_ "Int")); SField_ (S_ "next") [] (RNamed (S_ "Node"))]);
+                   (S_ "A", TObject [S_ "Node"] [SField_ (S_ "id") [] (RNonNull (RNamed (S_ "Int")));
+                                                SField_ (S_ "next") [] (RNamed (S_ "A"))]);
+                   (S_ "B", TObject [S_ "Node"] [SField_ (S_ "id") [] (RNamed (S_ "Int"));
+                                                SField_ (S_ "next") [] (RNamed (S_ "U"))]);
+                   (S_ "U", TUnion [S_ "A"; S_ "B"]);
+                   (S_ "Int", TScalar SkInt)]
+                  (Some (S_ "Q")) None None [] in
+  let bad := Schema [(S_ "Q", TObject [] [SField_ (S_ "n") [] (RNamed (S_ "Node"))]);
+                     (S_ "Node", TInterface [SField_ (S_ "id") [] (RNamed (S_ "Int"))]);
+                     (S_ "A", TObject [S_ "Node"] []);
+                     (S_ "Int", TScalar SkInt)]
+                    (Some (S_ "Q")) None None [] in
+  implements_okb s = true /\ implements_okb bad = false.
 Proof. vm_compute. split; reflexivity. Qed.
